@@ -156,7 +156,9 @@ class YowNoiseLayer(YowLayer):
                 config.server_static_public = self._wa_noiseprotocol.rs
                 self._profile.write_config(config)
                 self._rs = self._wa_noiseprotocol.rs
-            self._flush_incoming_buffer()
+            # if the lock is taken, the network thread is already in there (this callback may even be running
+            # inside its receive call) and delivers everything that is queued
+            self._flush_incoming_buffer(blocking=False)
 
     def _handle_stream_event(self, event, stream, segments_queue):
         if event == BlockingQueueSegmentedStream.EVENT_WRITE:
@@ -176,8 +178,9 @@ class YowNoiseLayer(YowLayer):
         data = bytes(data) if type(data) is not bytes else data
         self._wa_noiseprotocol.send(data)
 
-    def _flush_incoming_buffer(self):
-        self._flush_lock.acquire()
+    def _flush_incoming_buffer(self, blocking=True):
+        if not self._flush_lock.acquire(blocking):
+            return
         while self._incoming_segments_queue.qsize():
             self.toUpper(self._wa_noiseprotocol.receive())
         self._flush_lock.release()
